@@ -20,7 +20,9 @@ static double _get_double(const char* data, size_t pos);
    unsigned int, long and unsigned long types can hold) and its `(int)(a)-1`
    overflows for large negative values.  Round in double precision and go
    through a 64-bit integer instead (narrower types then wrap as before). */
-#define _ROUND_DOUBLE(a) (floor((a)+0.5))
+/* doubles of magnitude >= 2^52 are integers already; for them (a)+0.5 is not
+   representable and rounds to even, i.e. to a wrong neighbour for odd values */
+#define _ROUND_DOUBLE(a) ((fabs(a) < 4503599627370496.0) ? floor((a)+0.5) : (a))
 #define _ROUND_INT64(a) ((long long int)_ROUND_DOUBLE(a))
 
 static void _set_uchar(char* data, size_t pos, double value);
